@@ -156,7 +156,8 @@ class LenPredicate:
 
         cleaned = unannotate(value)
         if (
-            not self.has_star
+            positive
+            and not self.has_star
             and isinstance(cleaned, TypedValue)
             and cleaned.typ is tuple
         ):
